@@ -159,6 +159,87 @@ pub fn run(rep: &mut Rep) {
         let cell = std::cell::RefCell::new(&mut *rep);
         enumerate::explore(d, 2, shard, nshards, |ch| body(&mut cell.borrow_mut(), ch));
     }
+    // a resumption that breaks down while re-sending (write error 0-40 bytes into what run() writes), followed by another
+    // resumption: the session must still know every unfinished handshake
+    rep.note("broken resumption: 1-5 unfinished handshakes; on the resumed connection the transport fails 0 / 2 / 4 / 5 / 9 / 13 / 20 / 40 bytes into the re-sending, run() ends; the session is resumed once more on a healthy connection: everything unfinished is re-sent in order and the original futures complete");
+    let mut bidx = 85_000_000u64;
+    for unfinished in 1..=5usize {
+        for fail_after in [0usize, 2, 4, 5, 9, 13, 20, 40] {
+            let id = format!("broken:{unfinished}:{fail_after}");
+            bidx += 1;
+            if !rep.take(bidx, &id) {
+                continue;
+            }
+            let mut w = World::boot(WorldCfg { seed: rep.seed, sei: Some(3600), ..Default::default() });
+            for j in 0..unfinished {
+                let i = w.start(j % 2, if j % 2 == 1 { Kind::Pub2 } else { Kind::Pub1 });
+                w.settle_check();
+                if j == 1 {
+                    w.deliver_ack(i, 1, 0, 0);
+                    w.settle_check();
+                }
+            }
+            w.eof();
+            w.settle_check();
+            // first resumption: breaks down
+            w.sim.cmd(crate::sim::Cmd::MarkDisconnected(1));
+            w.sim.new_transport();
+            w.sim.cmd(crate::sim::Cmd::Connect(crate::spec::ConnSpec { sei: Some(3600), client_id: Some("c".into()), ..Default::default() }));
+            w.sim.settle();
+            w.sim.feed_packet(&crate::refcodec::SPacket::Connack { session_present: true, reason: 0, props: vec![] });
+            w.sim.settle();
+            let at = w.sim.written_len() + fail_after;
+            w.sim.writer.0.borrow_mut().err_at = Some(at);
+            w.sim.note(|| format!("transport: writes fail from offset {at} (during the re-sending)"));
+            w.sim.cmd(crate::sim::Cmd::Run);
+            w.sim.settle();
+            if w.sim.run_result().is_none() {
+                // the fault lay beyond everything that was re-sent: end this connection by end-of-stream instead
+                w.sim.set_eof();
+                w.sim.settle();
+            }
+            rep.add("resumptions_broken_while_resending", 1);
+            for p in w.sim.panics.clone() {
+                w.viol(&["C17"], format!("C17/panic/{p}"), format!("panic during the broken resumption: {p}"));
+            }
+            // second resumption: healthy
+            let (pubs, rels) = w.unfinished();
+            let resumed = w.resume_full(ResumeOpts { secs_ago: 1, sei: Some(3600), ..Default::default() });
+            rep.add("resumptions", 1);
+            rep.add("resumed_sessions", 1);
+            rep.add("publishes_expected_resent", pubs.len() as i64);
+            rep.add("pubrels_expected_resent", rels.len() as i64);
+            if resumed && !w.blind {
+                for _ in 0..3 {
+                    for (i, st) in w.ackable() {
+                        w.deliver_ack(i, st, 0, 0);
+                        w.settle_check();
+                        rep.add("acks_on_resumed_connection", 1);
+                    }
+                }
+                for i in 0..w.m.len() {
+                    if w.m[i].kind.is_qos_pub() && w.m[i].accepted == Some(true) && !w.m[i].dropped && w.sim.ops[i].out.is_none() {
+                        let k = w.m[i].kind.name();
+                        w.viol(&["C17"], format!("C17/original-future-not-completed/{k}"), format!("op{i}: still pending after its acknowledgement was delivered on the resumed connection"));
+                    }
+                }
+            }
+            finish(&mut w);
+            for v in w.viols.iter_mut() {
+                if !v.props.contains(&"C17") && !v.props.contains(&"*") && !v.props.contains(&"C10") {
+                    v.sig = format!("C17/after-resume/{}", v.sig);
+                    v.props = &["C17"];
+                }
+            }
+            rep.add("evaluations", 1);
+            rep.add("broken_resumption_cases", 1);
+            rep.distinct(&("broken", unfinished, fail_after));
+            if harvest(rep, &mut w, &id) == 0 {
+                rep.sample(|| format!("{id}: after a resumption that failed {fail_after} bytes into the re-sending, {} PUBLISH and {} PUBREL were re-sent in order on the next one", pubs.len(), rels.len()));
+            }
+            add_counters(rep, &w);
+        }
+    }
     // many unfinished handshakes at once (the enumeration above keeps at most 4 in flight)
     let ns: Vec<usize> = if rep.quick() { vec![9, 17, 33, 65, 129, 300] } else { vec![7, 8, 9, 15, 16, 17, 31, 32, 33, 63, 64, 65, 127, 128, 129, 255, 256, 257, 1000, 3000] };
     rep.note(&format!("wide: {:?} QoS 1/2 publishes unfinished at once (a sixth of them already released by PUBREC, some acknowledged and finished in between), connection cut, session resumed: all of them re-sent in order, all futures complete on the new connection; also with the resuming CONNACK announcing Receive Maximum 10", ns));
